@@ -182,6 +182,11 @@ def run(ctx):
                         what = "a discarded references node is still registered"
                     elif any(id(o) in old_objs for n in _w(root) if n.id not in known for o in (n, n.attributes, n.extras, n.children)):
                         what = "a substituted copy shares a mutable object (dict / children list) with a node of the original tree: the copies are not independent"
+                    elif any(c.parent is not n for n in _w(root) for c in n.children):
+                        bad = next((n.name, c.name) for n in _w(root) for c in n.children if c.parent is not n)
+                        what = f"after expansion the parent link of a {bad[1]} listed under {bad[0]} points elsewhere (into the referenced element): the substituted copies are not independent of their source"
+                    elif len({id(n) for n in _w(root)}) != sum(1 for _ in _w(root)):
+                        what = "one node object occurs at two places of the expanded tree: two references to the same id did not get separate copies"
                     else:
                         errs_after = []
                         validate.tree(root, errs_after)
